@@ -47,8 +47,10 @@ def true_ranks(n, rho):
 def record(n, rho, r0, drmin, drmax, nswp=None, cache=False, m=None, none_at=None, cb_at=None,
            seed=1, mcs=10**5, e=None, e_vld=None, vld=False, tau=1.1, return_Y=False, pre=None, zeros=False):
     """Run teneva.cross once and return the trace (cfg + events)."""
-    if not hasattr(C, '_iter') or not hasattr(C, '_func'):
-        raise common.Machinery('teneva.cross lost the _iter/_func seams the recorder relies on')
+    # Seams: C._iter (row choices) and C._func (batch requests).  If a refactoring removed one of them the recorder
+    # degrades instead of failing: without _iter the trace carries no iter events (validated against the count
+    # abstraction with silent iteration steps); without _func only objective calls, callbacks and the return are seen.
+    has_iter, has_func = hasattr(C, '_iter'), hasattr(C, '_func')
     cores, F = make_target(n, rho, seed)
     d = len(n)
     if zeros:
@@ -80,7 +82,7 @@ def record(n, rho, r0, drmin, drmax, nswp=None, cache=False, m=None, none_at=Non
                        stop=info['stop'] or 'none'))
         return Z
 
-    orig = C._iter
+    orig = getattr(C, '_iter', None)
 
     def it(Z, Ig, I, *a, **k):
         G, R, Inew = orig(Z, Ig, I, *a, **k)
@@ -126,24 +128,28 @@ def record(n, rho, r0, drmin, drmax, nswp=None, cache=False, m=None, none_at=Non
     pre = [tuple(int(x) for x in p) for p in (pre or [])] if cache else []
     for p in pre:
         c[p] = float(F[p])
-    C._iter = it
+    if has_iter:
+        C._iter = it
+    degraded = None if has_iter and has_func else ('noiter' if has_func else 'nofunc')
     try:
         Y = teneva.cross(f, Y0, m=m, e=e, nswp=nswp, tau=tau, dr_min=drmin, dr_max=drmax, info=info, cache=c,
-                         I_vld=I_vld, y_vld=y_vld, e_vld=e_vld, cb=cb, func=func, m_cache_scale=mcs)
+                         I_vld=I_vld, y_vld=y_vld, e_vld=e_vld, cb=cb, func=func if has_func else None, m_cache_scale=mcs)
     except Exception as ex:
         # whatever the interruption point, cross must RETURN a tensor: an exception is recorded as a failed return
-        C._iter = orig
         ev.append(dict(ev='raised', what='%s: %s' % (type(ex).__name__, str(ex)[:200])))
         cfg = dict(n=list(n), r0=[int(x) for x in teneva.ranks(Y0)], drmin=drmin, drmax=drmax,
                    nswp=-1 if nswp is None else nswp, mmax=-1 if m is None else int(m), cache=bool(cache), mcs=int(mcs),
                    hasE=e is not None, hasV=e_vld is not None, rho=[99] * (d + 1), pre=[])
         tr = dict(cfg=cfg, ev=ev, meta=dict(seed=seed, rho=rho, none_at=none_at, cb_at=cb_at, e=e, e_vld=e_vld, vld=vld, npre=0, raised=str(ex)[:200]))
+        if degraded:
+            tr['degraded'] = degraded
         info.setdefault('m', -1)
         if return_Y:
             return tr, info, ncall[0], None
         return tr, info, ncall[0]
     finally:
-        C._iter = orig
+        if has_iter:
+            C._iter = orig
 
     shapes_ok = all(isinstance(G, np.ndarray) and G.ndim == 3 for G in Y)
     finite = bool(shapes_ok and all(np.isfinite(G).all() for G in Y))
@@ -195,6 +201,8 @@ def record(n, rho, r0, drmin, drmax, nswp=None, cache=False, m=None, none_at=Non
                hasE=e is not None, hasV=e_vld is not None, rho=true_ranks(n, rho) if not zeros else [99] * (d + 1),
                pre=[list(p) for p in dict.fromkeys(pre)])
     tr = dict(cfg=cfg, ev=ev, meta=dict(seed=seed, rho=rho, none_at=none_at, cb_at=cb_at, e=e, e_vld=e_vld, vld=vld, npre=len(pre)))
+    if degraded:
+        tr['degraded'] = degraded
     if return_Y:
         return tr, info, ncall[0], Y
     return tr, info, ncall[0]
@@ -259,6 +267,28 @@ def fault_suite(n, rho, r0, drm, drM, nswp, cache, seed, dense_budgets=False):
         out.append(record(n, rho, r0, drm, drM, nswp, cache, pre=pre, m=max(1, M // 2), seed=seed)[0])
         full = [list(ix) for ix in itertools.product(*[range(k) for k in n])]
         out.append(record(n, rho, r0, drm, drM, nswp, cache, pre=full, seed=seed)[0])
+    return out
+
+
+def to_counts(tr):
+    """Projection of a full trace onto the events of Trace_CrossCounts (sizes only)."""
+    ev = []
+    for e in tr['ev']:
+        k = e['ev']
+        if k == 'req':
+            ev.append(dict(ev='req', n=e['n'], r1=max(1, len(e['Ir'])), r2=max(1, len(e['Ic'])), m=e['m'], mc=e['mc'], stop=e['stop']))
+        elif k == 'fcall':
+            ev.append(dict(ev='fcall', new=len(e['I']), none=e['none'], wf=e['wf']))
+        elif k == 'iter':
+            ev.append(dict(ev='iter', ltr=e['ltr'], q=len(e['Inew'])))
+        elif k == 'ret':
+            ev.append({kk: e[kk] for kk in ('ev', 'stop', 'm', 'mc', 'nswp', 'ranks', 'shape', 'finite', 'e_ok', 'evld_ok')})
+        else:
+            ev.append(dict(e))
+    cfg = {kk: tr['cfg'][kk] for kk in ('n', 'r0', 'drmin', 'drmax', 'nswp', 'mmax', 'cache', 'mcs', 'hasE', 'hasV')}
+    out = dict(cfg=cfg, ev=ev)
+    if tr.get('degraded') == 'noiter':
+        out['noiter'] = True
     return out
 
 
